@@ -46,9 +46,11 @@ def gen_route(rng):
     b = a | extra
     b = (b >> (top - m)) << (top - m) if m < top else b
     segs = rng.choice(["()", "((2 (%d)))", "((2 (7 %d)))", "((2 (7)) (1 (%d 9)))", "((3 (%d)))", "((2 (%d)) (4 (5)))", "((2 (7)) (2 (8 %d)))"])
-    asn = rng.choice(ASES[1:] + [65009])
+    # origin AS 0 as well (a path ending in AS 0, or a locally originated route of a source without local AS): an AS 0 ROA
+    # never makes a route Valid
+    asn = rng.choice(ASES[1:] + [65009, 0])
     segs = segs % asn if "%d" in segs else segs
-    own = rng.choice([65001, 65000])
+    own = rng.choice([65001, 65000, 0])
     return (fam, b, m, own, segs)
 
 
